@@ -68,7 +68,7 @@ def make_transcoders(normalize, drop, post=False, second=None, second_source=Non
 def gen_record(rng):
     """a record and what it is about"""
     k = rng.randrange(10)
-    rec = {'type': rng.choice(['a', 'a', 'a', 'a', 'zzz', None])} if k else {}
+    rec = {'type': rng.choice(['a', 'a', 'a', 'a', 'a', 'zzz', None, '', 0])} if k else {}
     if rec.get('type') is None and 'type' in rec and rng.random() < 0.5:
         del rec['type']
     if rng.random() < 0.9:
@@ -220,8 +220,8 @@ def scenario(ck, rng, terms, metas):
     cfg = {'normalize': rng.random() < 0.5, 'drop': rng.random() < 0.4, 'ignore_invalid': rng.random() < 0.5, 'fallback': rng.random() < 0.5,
            'to_file': rng.random() < 0.5, 'source_first': rng.random() < 0.8, 'post_processor': rng.random() < 0.4,
            'second_event': rng.choice([None, None, 'after', 'before']), 'second_event_source': rng.choice([None, None, '/never/registered/'])}
-    if cfg['drop']:
-        cfg['normalize'] = True
+    if cfg['drop'] and rng.random() < 0.6:
+        cfg['normalize'] = True          # otherwise: drop-only repair (invalid objects of `count` are dropped, nothing is normalised)
     A, F = make_transcoders(cfg['normalize'], cfg['drop'], cfg['post_processor'], cfg['second_event'], cfg['second_event_source'])
 
     class M(ObjectTranscoderMediator):
@@ -329,6 +329,19 @@ def scenario(ck, rng, terms, metas):
                                                'observed': 'expected event %s %r at position %d, output has %r' % (etype, want, j, evs[j][1:] if j < len(evs) else None)})
                     return
                 j += 1
+            elif what == 'a' and cfg['drop'] and not cfg['normalize'] and not err and props is not None and \
+                    spec_valid_event({k: ([x for x in v if coerce(x) is not None and c03lib.spec_valid(PROP_TYPES[k], coerce(x)) is True] if k == 'count' else v)
+                                      for k, v in props.items() if k != 'count' or any(coerce(x) is not None and c03lib.spec_valid(PROP_TYPES[k], coerce(x)) is True for x in v)}):
+                # drop-only repair: the invalid objects of `count` are dropped, the rest of the event is valid -> it IS written (never skipped)
+                kept = {k: v for k, v in want.items() if k != 'count'}
+                goodc = sorted({coerce(x) for x in props.get('count', []) if coerce(x) is not None and c03lib.spec_valid(PROP_TYPES['count'], coerce(x)) is True})
+                if goodc:
+                    kept['count'] = goodc
+                if j >= len(evs) or evs[j][3] != kept or evs[j][1] != etype:
+                    ck.oracle_failures.append({'signature': 'repairable-event-missing-or-changed/drop-only', 'input': inp,
+                                               'observed': 'expected the repaired event %r at position %d, output has %r' % (kept, j, evs[j][1:] if j < len(evs) else None)})
+                    return
+                j += 1
             else:
                 # repaired (then present and valid by construction of the parser), skipped, or the point where process() raised
                 repaired = False
@@ -359,7 +372,7 @@ def scenario(ck, rng, terms, metas):
             for what, props, valid in evl:
                 if valid:
                     mops.append(C('ORecord', C('EvValid'), '/src/one/' if cfg['source_first'] else '/undefined/'))
-                elif cfg['normalize'] and what == 'a':
+                elif (cfg['normalize'] or cfg['drop']) and what == 'a':
                     ambiguous = True
                 else:
                     mops.append(C('ORecord', C('EvInvalid'), '/src/one/' if cfg['source_first'] else '/undefined/'))
